@@ -47,6 +47,8 @@ def run(P, R, tier):
     from rules import C13
     C13.fixed_taint(P, R, 'C17.a', None)
     zero_trip(P, R)
+    from rules import common as _common
+    _common.no_fastmath(P, R, 'C17.g', ['spatialpandas.geometry', 'spatialpandas.spatialindex', 'spatialpandas.utils'])
     cache = {}
     n = 0
     for mod, pred, new in PICK:
